@@ -14,7 +14,8 @@ use crate::Configuration;
 pub mod generator_utils {
     pub use crate::generator::utils::{
         break_concat, break_equal, break_long_string, break_minus, break_variable_arguments,
-        count_new_lines, ends_with_prefix, should_break_with_space, starts_with_parenthese,
+        count_new_lines, ends_with_prefix, should_break_after_number, should_break_with_space,
+        starts_with_parenthese,
         starts_with_table, verif_escape as escape, verif_get_quote_symbol as get_quote_symbol,
         verif_needs_escaping as needs_escaping,
         verif_needs_quoted_string as needs_quoted_string,
